@@ -753,9 +753,14 @@ func (mpt *MerklePatriciaTrie) insertAfterPathTraversal(value MPTSerializable, n
 		return mpt.insertNode(node, nnode)
 	case *ExtensionNode:
 		// an existing extension node becomes a branch + extension node (with one less path element as it's stored in the new branch) with value on the new branch
-		_, ckey, err := mpt.insertExtension(nil, nodeImpl.Path[1:], nodeImpl.NodeKey)
-		if err != nil {
-			return nil, nil, err
+		ckey := nodeImpl.NodeKey
+		if len(nodeImpl.Path) > 1 {
+			// a one-element path is consumed by the new branch: an extension with an empty path would hide its subtree
+			var err error
+			_, ckey, err = mpt.insertExtension(nil, nodeImpl.Path[1:], nodeImpl.NodeKey)
+			if err != nil {
+				return nil, nil, err
+			}
 		}
 		nnode := NewFullNode(value)
 		nnode.PutChild(nodeImpl.Path[0], ckey)
